@@ -24,6 +24,15 @@ fn near_second_edge(c: &DayCase, rd: i64, pr: Prayer) -> bool {
 }
 
 fn one(ctx: &mut Ctx, c: &DayCase) {
+    // the property's quantifier (this also keeps the shrinker inside it: with the policy removed a missing
+    // twilight simply stays missing, which is not a failure of the nearest-good-day policies)
+    if !(matches!(c.p.extreme_latitude_method, ExtremeLatitudeMethod::NearestGoodDayAllPrayersAlways | ExtremeLatitudeMethod::NearestGoodDayFajrIshaInvalid)
+        && f64::from(c.l.coords.latitude).abs() <= 64.
+        && named_like(c, false))
+    {
+        ctx.branch("input-outside-quantifier");
+        return;
+    }
     ctx.eval();
     let all = matches!(c.p.extreme_latitude_method, ExtremeLatitudeMethod::NearestGoodDayAllPrayersAlways);
     let none = |rd: i64| {
